@@ -22,6 +22,7 @@ ASSUMPTIONS = [
     "spgemm_rmerge is only specified (and only run) for B with sorted rows without duplicate columns",
     "power method: the start vector is the one std::mt19937(0)/uniform_real_distribution produce on one thread (fed to the model); only OMP_NUM_THREADS=1",
     "diagonal(): rows without a diagonal entry leave the output cell as allocated (0 for vq::Q); only tested, not specified",
+    "adapter::block_matrix: specified (oracle o.block / o.unblock) for rows sorted by column without duplicates and sizes divisible by the block size; other inputs are compared with the model only",
     "pointwise_matrix: the block-maximum oracle is applied to row-sorted inputs with sizes divisible by the block size (the domain of theorem C08_pointwise_block_maximum); unsorted inputs are compared with the model only",
 ]
 TRUSTED_BASE = [
@@ -104,6 +105,17 @@ def base_cases(tier, seed):
             if n == m:
                 add("specrad", 0, "@NT@", a); add("specrad", 1, "@NT@", a)
 
+    # ---- adapter::block_matrix: all small patterns (incomplete blocks) --------------------------
+    def block_ops(b, n, m, rows):
+        a = crs(n, m, rows)
+        add("block", b, a); add("unblock", b, a)
+    for (b, n, m) in [(2, 2, 2), (2, 2, 4), (2, 4, 2), (2, 4, 4), (3, 3, 3), (3, 3, 6), (4, 4, 4), (2, 2, 6), (3, 6, 6), (4, 4, 8)]:
+        npat = 1 << (n * m)
+        lim = 260 if quick else 70000
+        pats = range(npat) if npat <= lim else [r.getrandbits(n * m) for _ in range(lim // 4 if n * m > 16 else lim)]
+        for pa in pats:
+            off = r.randrange(len(PAL)); pal = PAL[off:] + PAL[:off]
+            block_ops(b, n, m, gen.c08_pattern_rows(pa, n, m, pal, "sorted"))
     # ---- random ------------------------------------------------------------------------
     N = 260 if quick else 2200
     for it in range(N):
@@ -180,6 +192,17 @@ def base_cases(tier, seed):
             pn, pm = np_ * b + r.choice([0, 1]), mp_ * b + r.choice([0, 1])
             P = gen.c08_sorted_distinct(gen.rcrs(r, pn, pm))
         add("pointwise", crs(pn, pm, P), b)
+        # block_matrix adapter on the same kind of inputs (b >= 2; sorted rows are the specified domain,
+        # unsorted / duplicate rows are compared with the model only)
+        bb = r.choice([2, 2, 3, 4])
+        bn, bm_ = (r.randint(1, 4), r.randint(1, 4)) if not big else (r.randint(3, 8), r.randint(3, 8))
+        kb = r.random()
+        if kb < 0.45: BR = gen.c08_block_matrix(r, bn, bm_, bb, r.choice([0.3, 0.7]), r.choice([0.3, 0.6, 1.0])); BR = gen.c08_sorted_distinct(BR); sn, sm = bn * bb, bm_ * bb
+        elif kb < 0.7: sn, sm = bn * bb, bm_ * bb; BR = gen.c08_sorted_distinct(gen.rcrs(r, sn, sm))
+        elif kb < 0.8: BR = gen.c08_kron_identity(gen.c08_sorted_distinct(gen.rcrs(r, bn, bm_)), bb); sn, sm = bn * bb, bm_ * bb
+        elif kb < 0.9: sn, sm = bn * bb, bm_ * bb; BR = gen.rcrs(r, sn, sm, dups=True)
+        else: sn, sm = bn * bb + r.choice([0, 1]), bm_ * bb + r.choice([0, 1]); BR = gen.c08_sorted_distinct(gen.rcrs(r, sn, sm))
+        block_ops(bb, sn, sm, BR)
         # complex (non-trivial adjoint)
         if it % 3 == 0:
             cn, ck, cm = min(n, 6), min(k, 6), min(m, 6)
@@ -225,6 +248,17 @@ def nt_of(line):
 def crs_tokens_of_output(s):
     n, m, rows = parse_out_crs(s)
     return fmt_crs(n, m, rows)
+
+def bcrs_tokens_of_output(s):
+    """'{np mp | J:v,v,.. J:v,.. | ...}' -> 'np mp k J v v .. ...'"""
+    s = s.strip(); parts = s[1:-1].split("|")
+    n, m = [int(x) for x in parts[0].split()]
+    out = [str(n), str(m)]
+    for p in parts[1:]:
+        es = p.split(); out.append(str(len(es)))
+        for e in es:
+            c, v = e.split(":"); out += [c] + v.split(",")
+    return " ".join(out)
 
 def ccrs_tokens_of_output(s):
     s = s.strip(); parts = s[1:-1].split("|")
@@ -305,6 +339,16 @@ def oracle_line(line, impl_out):
         if op == "specrad":
             sc = int(c.tok()); nt = c.tok(); a = c.crs()
             return "%s o.specrad %d %s %s" % (cid, sc, a, impl_out.strip())
+        if op in ("block", "unblock"):
+            b = int(c.tok()); a = c.crs()
+            n, m, rows = rows_of_tokens(a)
+            if n % b or m % b: return None
+            # specified for rows sorted by column without duplicates
+            if any(any(rw[i][0] >= rw[i + 1][0] for i in range(len(rw) - 1)) for rw in rows): return None
+            if op == "unblock":
+                if not small(n, m): return None
+                return "%s o.unblock %s %s" % (cid, a, crs_tokens_of_output(impl_out))
+            return "%s o.block %d %s %s" % (cid, b, a, bcrs_tokens_of_output(impl_out))
         if op in ("copy_crs", "copy_ranges", "copy_tuple", "copy_convert"):
             a = c.crs()
             return "%s o.copy %s %s" % (cid, a, crs_tokens_of_output(impl_out))
